@@ -35,7 +35,8 @@ type TCase struct {
 	I2S    bool         `json:"int64_string_pair"` // Int642String on t2j + String2Int64 on j2t
 	NoB64  bool         `json:"no_base64_pair"`    // NoBase64Binary on both
 	BufCap int          `json:"buf_cap"`
-	BufRel int          `json:"buf_rel"` // >= 0: the j2t caller buffer has capacity len(JSON)+BufRel instead of BufCap
+	BufRel int          `json:"buf_rel"` // >= 0: the j2t caller buffer has capacity len(JSON)*BufMul+BufRel instead of BufCap
+	BufMul int          `json:"buf_mul"`
 	// options the converter objects held before SetOptions installed the pair above
 	PrevNoB64        bool `json:"prev_no_base64,omitempty"`
 	PrevWriteDefault bool `json:"prev_write_default,omitempty"`
@@ -88,7 +89,7 @@ func checkThrift(c *pbt.Ctx, cs TCase) {
 	}
 	c.Step("j2t of t2j output")
 	if cs.BufRel >= 0 {
-		cs.BufCap = len(j1) + cs.BufRel
+		cs.BufCap = len(j1)*cs.BufMul + cs.BufRel
 	}
 	buf, guard := pbt.GuardedBuf(cs.BufCap)
 	if !c.Protect("", func() {
@@ -152,7 +153,7 @@ var TProp = pbt.Register(pbt.Prop[TCase]{
 		v := tm.GenValue(t, u, u.Root, cfg)
 		cs := TCase{U: u, V: v, I2S: rapid.Bool().Draw(t, "i2s"), NoB64: rapid.IntRange(0, 3).Draw(t, "nob64") == 0,
 			BufCap: []int{0, 1, 16, 4096, 100000}[rapid.IntRange(0, 4).Draw(t, "bufCap")],
-			BufRel: rapid.IntRange(-24, 24).Draw(t, "bufRel"), PrevNoB64: rapid.Bool().Draw(t, "prevNoB64"), PrevWriteDefault: rapid.Bool().Draw(t, "prevWriteDefault"), PrevI2S: rapid.Bool().Draw(t, "prevI2S")}
+			BufRel: rapid.IntRange(-24, 200).Draw(t, "bufRel"), BufMul: rapid.IntRange(1, 5).Draw(t, "bufMul"), PrevNoB64: rapid.Bool().Draw(t, "prevNoB64"), PrevWriteDefault: rapid.Bool().Draw(t, "prevWriteDefault"), PrevI2S: rapid.Bool().Draw(t, "prevI2S")}
 		if cs.NoB64 {
 			sanitize(v)
 		}
